@@ -469,8 +469,12 @@ async fn run_async(body: Body, rec: Arc<Rec>, op: OpId, st: Arc<ObjState>, name:
 }
 
 /// A world: the recorder plus the objects of one execution
+pub type KeptFuture = (Pin<Box<scheduler::SchedulerFuture<u64>>>, u64, OpId, String);
+
 pub struct World {
     pub rec: Arc<Rec>,
+    /// futures polled once and kept (generated programs)
+    pub kept: StdMutex<Vec<KeptFuture>>,
     next_id: AtomicUsize,
     pub objs: StdMutex<Vec<Arc<ObjState>>>,
     pub payload_drops: Arc<AtomicUsize>,
@@ -478,7 +482,7 @@ pub struct World {
 
 impl World {
     pub fn new() -> Arc<World> {
-        Arc::new(World { rec: Rec::new(), next_id: AtomicUsize::new(0), objs: StdMutex::new(vec![]), payload_drops: Arc::new(AtomicUsize::new(0)) })
+        Arc::new(World { rec: Rec::new(), kept: StdMutex::new(vec![]), next_id: AtomicUsize::new(0), objs: StdMutex::new(vec![]), payload_drops: Arc::new(AtomicUsize::new(0)) })
     }
 
     pub fn raw(&self) -> Obj {
